@@ -310,9 +310,10 @@ class FQA:
 
         """
         _assert_numerical_iterable(self.acc, 'Gravitational acceleration vector')
-        _assert_numerical_iterable(self.mag, 'Geomagnetic field vector')
         self.acc = np.copy(self.acc)
-        self.mag = np.copy(self.mag)
+        if self.mag is not None:        # The magnetometer is optional
+            _assert_numerical_iterable(self.mag, 'Geomagnetic field vector')
+            self.mag = np.copy(self.mag)
         if self.acc.ndim < 2:
             _assert_numerical_iterable(self.acc, 'acc')
             if self.mag is not None:
@@ -345,7 +346,8 @@ class FQA:
 
         """
         _assert_numerical_iterable(acc, 'Gravitational acceleration vector')
-        _assert_numerical_iterable(mag, 'Geomagnetic field vector')
+        if mag is not None:
+            _assert_numerical_iterable(mag, 'Geomagnetic field vector')
         a_norm = np.linalg.norm(acc)
         if a_norm == 0:     # handle NaN
             return np.array([1., 0., 0., 0.])
